@@ -346,13 +346,62 @@ func c16r3(c *Ctx) {
 			create = fn
 		}
 	}
-	if change == nil || create == nil {
-		c.Anchor(rule, "GasScheduleChange / the schedule decoder returning (*GasCost, error)")
+	if change == nil {
+		c.Anchor(rule, "GasScheduleChange")
+		return
+	}
+	isDecode := func(in ssa.Instruction) (string, bool) {
+		if call, ok := in.(*ssa.Call); ok && strings.HasSuffix(CalleeName(call), "mapstructure.Decode") && len(call.Call.Args) >= 2 {
+			return "decode", true
+		}
+		return "", false
+	}
+	// the schedule decoder(s): what GasScheduleChange calls to turn the map into a GasCost — a function returning (*GasCost, error),
+	// or one that fills a *GasCost handed to it and returns an error (value: the position of that argument, -1 for the result form)
+	reachDecode := c.P.reachesEffect("c16mapdecode", isDecode)
+	isGasCostPtr := func(t types.Type) bool {
+		pt, ok := t.(*types.Pointer)
+		return ok && strings.HasSuffix(pt.Elem().String(), modPath+".GasCost")
+	}
+	decFns := map[*ssa.Function]int{}
+	decArg := map[ssa.Value]bool{} // the objects GasScheduleChange hands to a filling decoder
+	for _, b := range change.Blocks {
+		for _, in := range b.Instrs {
+			call, ok := in.(*ssa.Call)
+			if !ok {
+				continue
+			}
+			sc := call.Call.StaticCallee()
+			if sc == nil || len(sc.Blocks) == 0 || !reachDecode[sc] {
+				continue
+			}
+			res := sc.Signature.Results()
+			if res.Len() == 0 || !isErrorType(res.At(res.Len()-1).Type()) {
+				continue
+			}
+			if res.Len() == 2 && isGasCostPtr(res.At(0).Type()) {
+				decFns[sc] = -1
+				continue
+			}
+			for i, a := range call.Call.Args {
+				if isGasCostPtr(a.Type()) && res.Len() == 1 {
+					decFns[sc] = i
+					decArg[a] = true
+				}
+			}
+		}
+	}
+	if len(decFns) == 0 {
+		c.Anchor(rule, "the schedule decoder called by GasScheduleChange (returns (*GasCost, error), or fills a *GasCost and returns an error)")
 		return
 	}
 	e := c.P.Env(change)
 	decodeOK := func(f Fact) bool {
-		return !f.Lin && f.Pos && f.Call != nil && strings.HasPrefix(f.Atom, "ok:") && f.Call.Common().StaticCallee() == create
+		if f.Lin || !f.Pos || f.Call == nil || !strings.HasPrefix(f.Atom, "ok:") {
+			return false
+		}
+		_, ok := decFns[f.Call.Common().StaticCallee()]
+		return ok
 	}
 	// (a) store of the new schedule and every SetNewGasConfig call are cut by the decoder's success
 	n := 0
@@ -369,9 +418,14 @@ func c16r3(c *Ctx) {
 					_, cut := e.CutAt(x, decodeOK, nil)
 					isResult := false
 					if ex, ok := x.Val.(*ssa.Extract); ok && ex.Index == 0 {
-						if call, ok := ex.Tuple.(*ssa.Call); ok && call.Call.StaticCallee() == create {
-							isResult = true
+						if call, ok := ex.Tuple.(*ssa.Call); ok {
+							if k, isDec := decFns[call.Call.StaticCallee()]; isDec && k < 0 {
+								isResult = true
+							}
 						}
+					}
+					if decArg[x.Val] {
+						isResult = true // the object the decoder has filled
 					}
 					if cut && isResult {
 						c.OK(rule, FuncName(change), construct, c.P.InstrPos(x), "only the fully validated schedule is stored")
@@ -441,8 +495,10 @@ func c16r3(c *Ctx) {
 	decodes := map[ssa.Instruction]bool{}
 	for _, b := range change.Blocks {
 		for _, in := range b.Instrs {
-			if call, ok := in.(*ssa.Call); ok && call.Call.StaticCallee() == create {
-				decodes[in] = true
+			if call, ok := in.(*ssa.Call); ok {
+				if _, isDec := decFns[call.Call.StaticCallee()]; isDec {
+					decodes[in] = true
+				}
 			}
 		}
 	}
@@ -464,8 +520,8 @@ func c16r3(c *Ctx) {
 				Expected: "the only early return is the one taken when the decoder rejects the schedule"})
 		}
 	}
-	// (b) the decoder's success is cut by the zero-field check of each struct that flows into the result
-	ce := c.P.Env(create)
+	// (b) the decoder's success is cut by the decode and the zero-field check of each table that ends up in the object it hands
+	// back (returned, or filled through the pointer it was given), at every level when the work is delegated to a helper
 	zeroCheck := func(argTerm string) func(Fact) bool {
 		return func(f Fact) bool {
 			if f.Lin || !f.Pos || f.Call == nil || !strings.HasPrefix(f.Atom, "ok:") {
@@ -477,19 +533,40 @@ func c16r3(c *Ctx) {
 			return strings.Contains(f.Env.Term(f.Call.Common().Args[0]), argTerm)
 		}
 	}
-	for _, r := range returnsOf(create) {
-		if !isSuccessReturn(r) {
-			continue
-		}
-		// the structs stored into the result
-		res := retval(r, 0)
-		al, ok := res.(*ssa.Alloc)
-		if !ok {
-			c.Fail(rule, "undecided", FuncName(create), "result object", c.P.InstrPos(r), "the decoder does not return a literal built in place")
-			continue
-		}
+	var checkObj func(ce *Env, obj ssa.Value, r *ssa.Return, depth int) int
+	checkObj = func(ce *Env, obj ssa.Value, r *ssa.Return, depth int) int {
+		fn := ce.Fn
 		nf := 0
-		for _, ref := range *al.Referrers() {
+		if obj.Referrers() == nil || depth > 3 {
+			return 0
+		}
+		for _, ref := range *obj.Referrers() {
+			// the object handed on to a helper that fills it
+			if call, ok := ref.(*ssa.Call); ok {
+				sc := call.Call.StaticCallee()
+				if sc == nil || len(sc.Blocks) == 0 || !reachDecode[sc] {
+					continue
+				}
+				for i, a := range call.Call.Args {
+					if a != obj || i >= len(sc.Params) {
+						continue
+					}
+					filled := func(f Fact) bool {
+						return !f.Lin && f.Pos && f.Call == ssa.CallInstruction(call) && strings.HasPrefix(f.Atom, "ok:")
+					}
+					if _, cut := ce.CutAt(r, filled, nil); !cut {
+						c.Fail(rule, "violation", FuncName(fn), "result filled by "+sc.Name(), c.P.InstrPos(call), "the error of the helper that decodes the schedule is not checked before the object is handed back")
+						continue
+					}
+					sub := ce.Sub(call, sc)
+					for _, r2 := range returnsOf(sc) {
+						if isSuccessReturn(r2) {
+							nf += checkObj(sub, sc.Params[i], r2, depth+1)
+						}
+					}
+				}
+				continue
+			}
 			fa, ok := ref.(*ssa.FieldAddr)
 			if !ok {
 				continue
@@ -514,19 +591,19 @@ func c16r3(c *Ctx) {
 					}
 					_, cut2 := ce.CutAt(r, decoded, nil)
 					if cut1 && cut2 {
-						c.OK(rule, FuncName(create), construct, c.P.InstrPos(dc), "decoded successfully into the fresh result and passed the zero-field check")
+						c.OK(rule, FuncName(fn), construct, c.P.InstrPos(dc), "decoded successfully into the result and passed the zero-field check")
 					} else {
 						d := "a schedule with a zero or missing entry in this table is accepted"
 						if !cut2 {
 							d = "the decode error of this table is not checked"
 						}
-						c.Fail(rule, "violation", FuncName(create), construct, c.P.InstrPos(dc), d)
+						c.Fail(rule, "violation", FuncName(fn), construct, c.P.InstrPos(dc), d)
 					}
 				}
 			}
 			for _, rr := range *fa.Referrers() {
 				st, ok := rr.(*ssa.Store)
-				if !ok {
+				if !ok || st.Addr != ssa.Value(fa) {
 					continue
 				}
 				nf++
@@ -540,19 +617,75 @@ func c16r3(c *Ctx) {
 				}
 				_, cut2 := ce.CutAt(r, decoded, nil)
 				if cut1 && cut2 {
-					c.OK(rule, FuncName(create), construct, c.P.InstrPos(st), "decoded successfully and passed the zero-field check")
+					c.OK(rule, FuncName(fn), construct, c.P.InstrPos(st), "decoded successfully and passed the zero-field check")
 				} else {
 					d := "a schedule with a zero or missing entry in this table is accepted"
 					if !cut2 {
 						d = "the decode error of this table is not checked"
 					}
-					c.Fail(rule, "violation", FuncName(create), construct, c.P.InstrPos(st), d)
+					c.Fail(rule, "violation", FuncName(fn), construct, c.P.InstrPos(st), d)
 				}
 			}
 		}
-		if nf < 2 {
-			c.Fail(rule, "floor", FuncName(create), "result fields", c.P.InstrPos(r), "fewer than the two cost tables flow into the result")
+		return nf
+	}
+	toCheck := map[*ssa.Function]int{}
+	for fn, k := range decFns {
+		toCheck[fn] = k
+	}
+	if create != nil {
+		toCheck[create] = -1 // also used when the factory is built: the first schedule is judged by the same rule
+	}
+	var order []*ssa.Function
+	for fn := range toCheck {
+		order = append(order, fn)
+	}
+	sort.Slice(order, func(i, j int) bool { return order[i].Name() < order[j].Name() })
+	for _, dfn := range order {
+		k := toCheck[dfn]
+		ce := c.P.Env(dfn)
+		for _, r := range returnsOf(dfn) {
+			if !isSuccessReturn(r) {
+				continue
+			}
+			var obj ssa.Value
+			if k < 0 {
+				al, ok := retval(r, 0).(*ssa.Alloc)
+				if !ok {
+					c.Fail(rule, "undecided", FuncName(dfn), "result object", c.P.InstrPos(r), "the decoder does not return a literal built in place")
+					continue
+				}
+				obj = al
+			} else {
+				obj = dfn.Params[k+recvOffset(dfn)]
+			}
+			if nf := checkObj(ce, obj, r, 0); nf < 2 {
+				c.Fail(rule, "floor", FuncName(dfn), "result fields", c.P.InstrPos(r), "fewer than the two cost tables flow into the result")
+			}
 		}
+	}
+	// (d) a table is decoded into a fresh object: the map decoder leaves fields the schedule does not list as they are, and the
+	// zero-field check then passes on what was there before — decoding over prices in force (the live schedule or a copy of it)
+	// accepts a partial schedule and mixes two of them
+	nd := 0
+	for _, s := range c.P.EffectSitesBelow(e, "c16mapdecode", isDecode) {
+		call := s.In.(*ssa.Call)
+		nd++
+		construct := "decode target of " + s.Env.Term(call.Call.Args[1]) + " in " + s.Chain()
+		state, what := decodeTargetFresh(s.Env, call.Call.Args[1], 0)
+		switch state {
+		case 1:
+			c.OK(rule, FuncName(s.In.Parent()), construct, c.P.InstrPos(call), "decoded into "+what)
+		case 0:
+			c.FailX(Oblig{Rule: rule, Func: FuncName(s.In.Parent()), Construct: construct, Pos: c.P.InstrPos(call), Kind: "violation",
+				Detail:   "the new schedule is decoded into " + what + ": entries it does not list keep the price that was there and pass the zero-field check, so a partial schedule is accepted and the result is a mixture of two schedules",
+				Expected: "decode into a freshly allocated, zero-valued object and swap it in as a whole"})
+		default:
+			c.Fail(rule, "undecided", FuncName(s.In.Parent()), construct, c.P.InstrPos(call), "cannot tell whether the decode target is fresh: "+what)
+		}
+	}
+	if nd == 0 {
+		c.Anchor(rule, "calls of the map decoder below GasScheduleChange")
 	}
 	// (c) the reflective zero check looks at uint64/uint32/uint fields only: every field of both tables must be one of those
 	for _, tn := range []string{"BaseOperationCost", "BuiltInCost"} {
@@ -575,6 +708,106 @@ func c16r3(c *Ctx) {
 			c.Fail(rule, "violation", "-", tn+": every field is checked for zero", "-", "field "+bad+" is skipped by the reflective zero check")
 		}
 	}
+}
+
+// recvOffset: call arguments include the receiver, so do Params: no shift is needed (kept for clarity at the use site).
+func recvOffset(fn *ssa.Function) int { return 0 }
+
+// decodeTargetFresh: 1 when the object behind the pointer is allocated zero-valued below GasScheduleChange and not assigned as a
+// whole before, 0 when it is existing state (a field of a longer-lived object, or a copy of one), -1 when unknown.
+func decodeTargetFresh(e *Env, v ssa.Value, depth int) (int, string) {
+	if depth > 12 {
+		return -1, "too deep"
+	}
+	switch x := v.(type) {
+	case *ssa.MakeInterface:
+		return decodeTargetFresh(e, x.X, depth+1)
+	case *ssa.ChangeType:
+		return decodeTargetFresh(e, x.X, depth+1)
+	case *ssa.FieldAddr:
+		return decodeTargetFresh(e, x.X, depth+1)
+	case *ssa.Parameter:
+		if a, pe := e.actual(x); a != nil {
+			return decodeTargetFresh(pe, a, depth+1)
+		}
+		return -1, "parameter " + x.Name() + " of an entry function"
+	case *ssa.Alloc:
+		if x.Referrers() != nil {
+			for _, ref := range *x.Referrers() {
+				if st, ok := ref.(*ssa.Store); ok && st.Addr == ssa.Value(x) {
+					if k, isK := st.Val.(*ssa.Const); isK && k.Value == nil {
+						continue
+					}
+					if _, isPtr := x.Type().(*types.Pointer).Elem().Underlying().(*types.Pointer); isPtr {
+						continue // a pointer variable: judged where it is loaded
+					}
+					return 0, "a copy of " + e.Term(st.Val) + " (made at " + e.P.InstrPos(st) + ")"
+				}
+			}
+		}
+		return 1, "a fresh " + x.Type().(*types.Pointer).Elem().String()
+	case *ssa.Phi:
+		res, what := 1, ""
+		for _, ed := range x.Edges {
+			r, w := decodeTargetFresh(e, ed, depth+1)
+			if r < res {
+				res = r
+			}
+			if r != 1 || what == "" {
+				what = w
+			}
+		}
+		return res, what
+	case *ssa.UnOp:
+		if x.Op != token.MUL {
+			break
+		}
+		if f := forwarded(x); f != nil {
+			return decodeTargetFresh(e, f, depth+1)
+		}
+		if w, we := e.ctorField(x); w != nil {
+			return decodeTargetFresh(we, w, depth+1)
+		}
+		if _, ok := x.X.(*ssa.FieldAddr); ok {
+			return 0, "the object held in " + e.Term(x.X) + " (state that outlives the call)"
+		}
+		if _, ok := x.X.(*ssa.Global); ok {
+			return 0, "the package-level object " + e.Term(x.X)
+		}
+		return -1, e.Term(x)
+	case *ssa.Extract:
+		if call, ok := x.Tuple.(*ssa.Call); ok {
+			return decodeTargetFreshResult(e, call, x.Index, depth)
+		}
+	case *ssa.Call:
+		return decodeTargetFreshResult(e, x, 0, depth)
+	}
+	return -1, e.Term(v)
+}
+
+func decodeTargetFreshResult(e *Env, call *ssa.Call, idx int, depth int) (int, string) {
+	sc := call.Call.StaticCallee()
+	if sc == nil || len(sc.Blocks) == 0 || sc.Pkg == nil || !strings.HasPrefix(sc.Pkg.Pkg.Path(), modPath) || e.depth >= maxDepth {
+		return -1, "the result of " + CalleeName(call)
+	}
+	sub := e.Sub(call, sc)
+	res, what := 1, ""
+	for _, r := range returnsOf(sc) {
+		if idx >= len(r.Results) {
+			return -1, "the result of " + CalleeName(call)
+		}
+		if k, isK := r.Results[idx].(*ssa.Const); isK && k.Value == nil {
+			continue
+		}
+		rr, w := decodeTargetFresh(sub, retval(r, idx), depth+1)
+		if rr < res {
+			res = rr
+		}
+		if rr != 1 || what == "" {
+			what = w
+		}
+	}
+	return res, what
 }
 
 // c16r4: the own cost is charged on every sender-side success path.
